@@ -185,7 +185,10 @@ type Env struct {
 
 // NewEnv starts a Ufs server (not listening; connections are added with Dial) on a fresh
 // directory under $VERIF_SCRATCH.
-func NewEnv() (*Env, error) {
+func NewEnv() (*Env, error) { return NewEnvMsize(65536) }
+
+// NewEnvMsize: the same with another server msize.
+func NewEnvMsize(srvMsize uint32) (*Env, error) {
 	log.SetOutput(io.Discard)
 	logOnce.Do(func() { sharedLog = go9p.NewLogger(64) })
 	base := os.Getenv("VERIF_SCRATCH")
@@ -201,7 +204,7 @@ func NewEnv() (*Env, error) {
 	u.Dotu = true
 	u.Id = "ufsdata"
 	u.Root = root
-	u.Msize = 65536
+	u.Msize = srvMsize
 	u.Upool = hUsers{}
 	u.Log = sharedLog
 	if !u.Start(u) {
